@@ -79,8 +79,9 @@ def visible(reg):
             if i in referenced or len(t["path"]) < 2: nxt += [p for _, p in t["params"] if p is not None]
         else: nxt += refs(t)
         for j in nxt:
+            first = j not in referenced
             referenced.add(j)
-            if j < len(reg) and j in seen and reg[j]["def"][0] in ("composite", "variant") and reg[j]["params"]: seen.discard(j)   # revisit to follow params
+            if first and isinstance(j, int) and j < len(reg) and j in seen and reg[j]["def"][0] in ("composite", "variant") and reg[j]["params"]: seen.discard(j)   # revisit once to follow its parameters
             work.append(j)
     return seen, referenced
 def ref_sites(reg):
